@@ -74,9 +74,22 @@ func (lsn) OnTransformToHalfOpen(prev cb.State, rule cb.Rule) {
 	trace = append(trace, ev{w: coop.Me(), kind: "lsn", a: int64(prev), b: HalfOpen, t: clk.Ms()})
 }
 
+// laterSlot runs after the circuit breaker slot; for flagged requests it yields and then blocks,
+// so that a request which has just become the half-open probe ends up blocked (roll-back path).
+type laterSlot struct{}
+
+func (laterSlot) Order() uint32 { return 6000 }
+func (laterSlot) Check(ctx *base.EntryContext) *base.TokenResult {
+	if ctx.Input.Attachments["blockLater"] == true {
+		coop.Yield("after-breaker-check")
+		return base.NewTokenResultBlockedWithMessage(base.BlockTypeUnknown, "blocked by the monitor's later slot")
+	}
+	return nil
+}
+
 func gen(rng *rand.Rand) *scen {
 	s := &scen{Retry: vk.PickU32(rng, 10, 100, 1000), Probe: uint64(vk.PickI(rng, 0, 0, 0, 1, 2))}
-	s.Family = vk.PickS(rng, "trip", "trip2", "timeout", "probe-ok", "probe-fail", "reopen")
+	s.Family = vk.PickS(rng, "trip", "trip2", "timeout", "probe-ok", "probe-fail", "reopen", "probe-blocked", "probe-blocked")
 	r := uint64(s.Retry)
 	tickChoices := []uint64{1, r / 2, r - 1, r, r + r/2}
 	enter := func() step { return step{K: vk.PickS(rng, "enter", "enter-exit-ok", "enter-exit-err")} }
@@ -90,6 +103,12 @@ func gen(rng *rand.Rand) *scen {
 		s.Workers = [][]step{{{K: "complete-err", Live: 0}}, {{K: "complete-err", Live: 1}}, {enter()}}
 	case "timeout": // the retry timeout expires while two requests arrive
 		s.Workers = [][]step{{enter()}, {enter()}, {{K: "tick", Dt: tickChoices[rng.Intn(5)]}, {K: "tick", Dt: tickChoices[rng.Intn(5)]}}}
+	case "probe-blocked": // the request that becomes the probe is blocked by a later slot while a straggler fails
+		s.Workers = [][]step{{{K: "enter-blocked"}}, {{K: vk.PickS(rng, "complete-err", "complete-err", "complete-ok"), Live: 0}}, {{K: "tick", Dt: []uint64{1, r / 2}[rng.Intn(2)]}, enter()}}
+		if rng.Intn(3) == 0 {
+			s.Workers = s.Workers[:2]
+			s.Workers = append(s.Workers, []step{enter()})
+		}
 	case "probe-ok":
 		s.Workers = [][]step{{{K: "complete-ok", Live: 0}}, {enter()}, {enter()}}
 	case "probe-fail", "reopen":
@@ -159,6 +178,12 @@ func execute(s *scen, ch coop.Chooser) (res *coop.Result, clause, msg string) {
 			fail(lives[2])
 			lives = lives[:2]
 		}
+	case "probe-blocked":
+		okSetup = need(1) // the straggler, admitted while closed
+		if okSetup {
+			okSetup = openIt()
+		}
+		clk.AddMs(uint64(s.Retry)) // the retry timeout has elapsed
 	case "timeout":
 		okSetup = openIt()
 		clk.AddMs(uint64(s.Retry) - uint64(s.Retry)/2) // half a timeout before the deadline
@@ -179,7 +204,7 @@ func execute(s *scen, ch coop.Chooser) (res *coop.Result, clause, msg string) {
 	// initial state of the breaker when the race starts
 	init := Closed
 	switch s.Family {
-	case "timeout":
+	case "timeout", "probe-blocked":
 		init = Open
 	case "probe-ok", "probe-fail", "reopen":
 		init = HalfOpen
@@ -188,6 +213,9 @@ func execute(s *scen, ch coop.Chooser) (res *coop.Result, clause, msg string) {
 	openedAt := clk.Ms() // for "timeout": upper bound of the opening instant (it opened earlier: see below)
 	if s.Family == "timeout" {
 		openedAt = clk.Ms() - (uint64(s.Retry) - uint64(s.Retry)/2)
+	}
+	if s.Family == "probe-blocked" {
+		openedAt = clk.Ms() - uint64(s.Retry)
 	}
 	vatomic.After = func(op string, addr unsafe.Pointer, v int64, ok bool) {
 		w := coop.Me()
@@ -227,8 +255,20 @@ func execute(s *scen, ch coop.Chooser) (res *coop.Result, clause, msg string) {
 				default:
 					reqCtr++
 					id := reqCtr
-					trace = append(trace, ev{w: w, kind: "call", req: id, t: clk.Ms()})
-					e, ok := enter()
+					forced := int64(0)
+					if st.K == "enter-blocked" {
+						forced = 1
+					}
+					trace = append(trace, ev{w: w, kind: "call", req: id, a: forced, t: clk.Ms()})
+					var e *base.SentinelEntry
+					var ok bool
+					if st.K == "enter-blocked" {
+						var b *base.BlockError
+						e, b = sentinel.Entry(name, sentinel.WithAttachment("blockLater", true))
+						ok = b == nil
+					} else {
+						e, ok = enter()
+					}
 					adm := int64(0)
 					if ok {
 						adm = 1
@@ -265,7 +305,7 @@ func execute(s *scen, ch coop.Chooser) (res *coop.Result, clause, msg string) {
 	retry := uint64(s.Retry)
 	state := init
 	lastOpenT := openedAt
-	haveOpenT := s.Family == "timeout"
+	haveOpenT := s.Family == "timeout" || s.Family == "probe-blocked"
 	type tr struct{ from, to, w int }
 	var casTr, lsnTr []tr
 	// per request: state loads and transition ownership while inside Entry
@@ -276,6 +316,7 @@ func execute(s *scen, ch coop.Chooser) (res *coop.Result, clause, msg string) {
 		didHalfOpenCAS bool
 		admitted       bool
 		retPos         int
+		forced         bool // the monitor's later slot blocks this request whatever the breaker says
 	}
 	cur := map[int]*reqInfo{} // worker -> request in progress
 	inExit := map[int]bool{}
@@ -290,7 +331,7 @@ func execute(s *scen, ch coop.Chooser) (res *coop.Result, clause, msg string) {
 	for pos, e := range trace {
 		switch e.kind {
 		case "call":
-			cur[e.w] = &reqInfo{w: e.w}
+			cur[e.w] = &reqInfo{w: e.w, forced: e.a == 1}
 			opBeg[e.w] = e.t
 		case "exit-beg":
 			inExit[e.w] = true
@@ -318,6 +359,15 @@ func execute(s *scen, ch coop.Chooser) (res *coop.Result, clause, msg string) {
 			switch to {
 			case Open:
 				lastOpenT, haveOpenT = opBeg[e.w], true
+				if r := cur[e.w]; r != nil && !inExit[e.w] {
+					// HalfOpen->Open performed inside an Entry call: the roll-back of a probe that was blocked
+					// by a later check. The probe never ran, the library re-arms an immediate retry: no
+					// retry-timeout obligation starts here.
+					haveOpenT = false
+					if !r.forced || from != HalfOpen {
+						return res, "rollback-without-blocked-probe", fmt.Sprintf("worker %d moved the breaker %s->Open inside Entry although its request was not blocked by a later check", e.w, stName[from])
+					}
+				}
 			case HalfOpen:
 				if r := cur[e.w]; r != nil {
 					r.didHalfOpenCAS = true
@@ -339,6 +389,12 @@ func execute(s *scen, ch coop.Chooser) (res *coop.Result, clause, msg string) {
 			r.admitted = e.a == 1
 			if !r.loaded {
 				return res, "decision-without-reading-state", fmt.Sprintf("worker %d returned from Entry without reading the breaker state", e.w)
+			}
+			if r.forced {
+				if r.admitted {
+					return res, "later-block-ignored", fmt.Sprintf("worker %d: the later slot blocked the request but it was admitted", e.w)
+				}
+				continue
 			}
 			switch {
 			case r.admitted && r.lastLoad == Open && !r.didHalfOpenCAS:
@@ -438,9 +494,10 @@ func main() {
 		return
 	}
 	cb.RegisterStateChangeListeners(lsn{})
+	sentinel.GlobalSlotChain().AddRuleCheckSlot(laterSlot{})
 	run = vk.Start("C12", "coop")
 	defer run.Finish()
-	run.Rule("schedule = (family trip / trip2 / timeout / probe-ok / probe-fail / reopen, retry timeout, probe number, 2-3 workers performing Entry, Entry+Exit(ok/err), completion of a pre-existing entry, clock ticks of 1ms, 1/2, 1-, 1, 1.5 retry timeouts; choice sequence at every atomic access of circuit_breaker.go) under random walk, PCT d<=3 and bounded DFS. Oracle on the recorded total order: state changes only by legal CAS, listener multiset == performed transitions (same caller, same previous state, program order), Open->HalfOpen never earlier than open instant + retry timeout, every admission justified by the state the caller read (Closed, own Open->HalfOpen CAS, or HalfOpen with a probe number), no rejection after reading Closed; distinct = distinct (scenario, interleaving).")
+	run.Rule("schedule = (family trip / trip2 / timeout / probe-ok / probe-fail / reopen / probe-blocked (the probe is blocked by a later slot while a straggler completes), retry timeout, probe number, 2-3 workers performing Entry, Entry+Exit(ok/err), completion of a pre-existing entry, clock ticks of 1ms, 1/2, 1-, 1, 1.5 retry timeouts; choice sequence at every atomic access of circuit_breaker.go) under random walk, PCT d<=3 and bounded DFS. Oracle on the recorded total order: state changes only by legal CAS, listener multiset == performed transitions (same caller, same previous state, program order), Open->HalfOpen never earlier than open instant + retry timeout, every admission justified by the state the caller read (Closed, own Open->HalfOpen CAS, or HalfOpen with a probe number), no rejection after reading Closed; distinct = distinct (scenario, interleaving).")
 	run.Assume("one breaker per resource in this engine (several breakers per resource are covered sequentially by C03)", "Go atomics sequentially consistent; int32 atomics in circuit_breaker.go are the state word")
 	n := run.N(40000, 3000000)
 	for i := 0; i < n; i++ {
